@@ -133,6 +133,14 @@ static int _yr_ac_queue_is_empty(QUEUE* queue)
 }
 
 ////////////////////////////////////////////////////////////////////////////////
+// Removes all the items from a queue.
+//
+static void _yr_ac_queue_clear(QUEUE* queue)
+{
+  while (!_yr_ac_queue_is_empty(queue)) _yr_ac_queue_pop(queue);
+}
+
+////////////////////////////////////////////////////////////////////////////////
 // Given an automaton state and an input symbol, returns the new state
 // after reading the input symbol.
 //
@@ -239,7 +247,8 @@ static int _yr_ac_create_failure_links(YR_AC_AUTOMATON* automaton)
 
   while (state != NULL)
   {
-    FAIL_ON_ERROR(_yr_ac_queue_push(&queue, state));
+    FAIL_ON_ERROR_WITH_CLEANUP(
+        _yr_ac_queue_push(&queue, state), _yr_ac_queue_clear(&queue));
     state->failure = root_state;
     state = state->siblings;
   }
@@ -272,7 +281,8 @@ static int _yr_ac_create_failure_links(YR_AC_AUTOMATON* automaton)
 
     while (transition_state != NULL)
     {
-      FAIL_ON_ERROR(_yr_ac_queue_push(&queue, transition_state));
+      FAIL_ON_ERROR_WITH_CLEANUP(
+        _yr_ac_queue_push(&queue, transition_state), _yr_ac_queue_clear(&queue));
       failure_state = current_state->failure;
 
       while (1)
@@ -370,7 +380,8 @@ static int _yr_ac_optimize_failure_links(YR_AC_AUTOMATON* automaton)
 
   while (state != NULL)
   {
-    FAIL_ON_ERROR(_yr_ac_queue_push(&queue, state));
+    FAIL_ON_ERROR_WITH_CLEANUP(
+        _yr_ac_queue_push(&queue, state), _yr_ac_queue_clear(&queue));
     state = state->siblings;
   }
 
@@ -389,7 +400,8 @@ static int _yr_ac_optimize_failure_links(YR_AC_AUTOMATON* automaton)
 
     while (state != NULL)
     {
-      FAIL_ON_ERROR(_yr_ac_queue_push(&queue, state));
+      FAIL_ON_ERROR_WITH_CLEANUP(
+        _yr_ac_queue_push(&queue, state), _yr_ac_queue_clear(&queue));
       state = state->siblings;
     }
   }
@@ -453,10 +465,13 @@ static int _yr_ac_find_suitable_transition_table_slot(
 
     size_t bm_len_incr = YR_BITMASK_SIZE(257) * sizeof(YR_BITMASK);
 
-    automaton->bitmask = yr_realloc(automaton->bitmask, bm_len + bm_len_incr);
+    YR_BITMASK* new_bitmask = yr_realloc(
+        automaton->bitmask, bm_len + bm_len_incr);
 
-    if (automaton->bitmask == NULL)
+    if (new_bitmask == NULL)
       return ERROR_INSUFFICIENT_MEMORY;
+
+    automaton->bitmask = new_bitmask;
 
     memset((uint8_t*) automaton->bitmask + bm_len, 0, bm_len_incr);
 
@@ -588,7 +603,8 @@ static int _yr_ac_build_transition_table(YR_AC_AUTOMATON* automaton)
 
     yr_bitmask_set(automaton->bitmask, child_state->input + 1);
 
-    FAIL_ON_ERROR(_yr_ac_queue_push(&queue, child_state));
+    FAIL_ON_ERROR_WITH_CLEANUP(
+        _yr_ac_queue_push(&queue, child_state), _yr_ac_queue_clear(&queue));
     child_state = child_state->siblings;
   }
 
@@ -596,8 +612,10 @@ static int _yr_ac_build_transition_table(YR_AC_AUTOMATON* automaton)
   {
     state = _yr_ac_queue_pop(&queue);
 
-    FAIL_ON_ERROR(_yr_ac_find_suitable_transition_table_slot(
-        automaton, automaton->arena, state, &slot));
+    FAIL_ON_ERROR_WITH_CLEANUP(
+        _yr_ac_find_suitable_transition_table_slot(
+            automaton, automaton->arena, state, &slot),
+        _yr_ac_queue_clear(&queue));
 
     // _yr_ac_find_suitable_transition_table_slot can allocate more space in
     // both tables and cause the tables to be moved to a different memory
@@ -633,7 +651,8 @@ static int _yr_ac_build_transition_table(YR_AC_AUTOMATON* automaton)
 
       yr_bitmask_set(automaton->bitmask, child_state->t_table_slot);
 
-      FAIL_ON_ERROR(_yr_ac_queue_push(&queue, child_state));
+      FAIL_ON_ERROR_WITH_CLEANUP(
+        _yr_ac_queue_push(&queue, child_state), _yr_ac_queue_clear(&queue));
 
       child_state = child_state->siblings;
     }
